@@ -254,9 +254,15 @@ def gen_plan(r, eng, seed, prop):
     if eng == "atx":
         x = keyed_rng(seed, "plan", prop + "-conflict")
         for op in ops:
-            if not cmds.mk_cmd(op["cmd"]).sendtwice and x.random() < 0.12:
+            c_ = cmds.mk_cmd(op["cmd"])
+            if c_.sendtwice and len(c_.frame) == 16 and op["out"] == ["silent"] and x.random() < 0.15:
+                # a send-twice command whose second transmission collides: one result line, then the conflict
+                lines = [[x.choice([5, 20]), "N"], [x.choice([5, 20, 60]), "Z"]]
+                for _ in range(x.randrange(0, 3)):
+                    lines.append([x.choice([10, 50, 90, 150]), x.choice(["J%02X" % x.randrange(256), "N", "H%04X" % x.getrandbits(16)])])
+                op["conflict"] = lines
+            elif not c_.sendtwice and x.random() < 0.12:
                 lines = []
-                c_ = cmds.mk_cmd(op["cmd"])
                 if not (len(c_.frame) == 16 and (c_.frame.as_integer >> 8) in (0xB1, 0xB3, 0xB5)) and x.random() < 0.5:
                     # the other master's frames are reported first, the conflict after some of the driver's reads are spent
                     for _ in range(x.randrange(1, 5)):
